@@ -272,8 +272,8 @@ class Gen:
             self.expr_writes.add(v.name)
         return v
 
-    def assign_target(self, d, lexical_only=False):
-        """returns a simple assignment target expression"""
+    def assign_target(self, d, lexical_only=False, rw=False):
+        """returns a simple assignment target expression; rw: the target is read and written (update, compound assignment)"""
         r = self.r
         k = r.weighted([("var", 55), ("prop", 25), ("computed", 15), ("constvar", 3), ("undeclared", 2)])
         if lexical_only and k in ("constvar", "undeclared"):
@@ -296,6 +296,10 @@ class Gen:
             k = "prop"
         if k == "prop":
             return "%s.%s" % (self.obj_expr(d), r.choice(["a", "b", "c", "x", "length"]))
+        if rw and "v8_double_key_coercion" in self.avoid:
+            # V8 coerces the key of `o[k]++` / `o[k] += v` twice (once for the load, once for the store); the
+            # specification coerces it once (GetValue stores the property key back into the Reference Record)
+            return "%s[String(%s)]" % (self.obj_expr(d), self.expr(d + 1))
         return "%s[%s]" % (self.obj_expr(d), self.expr(d + 1))
 
     def obj_expr(self, d):
@@ -315,7 +319,7 @@ class Gen:
 
     def e_update(self, d):
         self.use("update")
-        t = self.assign_target(d)
+        t = self.assign_target(d, rw=True)
         op = self.r.choice(["++", "--"])
         return "(%s%s)" % (t, op) if self.r.chance(0.5) else "(%s%s)" % (op, t)
 
@@ -325,9 +329,9 @@ class Gen:
         if k == "logic" and "logical_assign" in self.avoid:
             k = "op"
         if k == "logic" and "logical_assign_nonlexical" in self.avoid:
-            t = self.assign_target(d, lexical_only=True)
+            t = self.assign_target(d, lexical_only=True, rw=True)
         else:
-            t = self.assign_target(d)
+            t = self.assign_target(d, rw=(k != "="))
         if k == "=":
             return "(%s = %s)" % (t, self.expr(d))
         if k == "op":
